@@ -669,3 +669,157 @@ Qed.
 (** [Q 00 00 00 04]: a Query message without payload *)
 Theorem get_simple_query_old_refuted : exists p, get_simple_query_old p = Panic.
 Proof. exists (mk_packet PG_QUERY_TYPE (packet_length_buf 0) []). vm_compute. reflexivity. Qed.
+
+(** * ReplaceQuery on a Parse message: the rewritten message parses back to the same name, parameter count
+    and parameter type OIDs, with exactly the query replaced (round s32) *)
+Definition oid4 (p : bytes) : Prop := length p = 4%nat.
+
+Lemma gslice_app_mid (h m t : bytes) (a b : Z) : a = len h -> b = (len h + len m)%Z ->
+  gslice a b (h ++ m ++ t) = Ok m.
+Proof.
+  intros -> ->.
+  rewrite gslice_ok by (rewrite ?len_app; pose proof (len_nonneg h); pose proof (len_nonneg m); pose proof (len_nonneg t); lia).
+  f_equal. unfold sub, len. rewrite Nat2Z.id, skipn_app_len.
+  apply firstn_app_len'. lia.
+Qed.
+
+Lemma read_oids_shape (k : nat) : forall (e : Z) (data : bytes) (ps : list bytes),
+  read_oids k e data = Ok ps -> length ps = k /\ Forall oid4 ps.
+Proof.
+  induction k as [|k IH]; intros e data ps; cbn [read_oids].
+  - intros [= <-]. split; [reflexivity|constructor].
+  - destruct (len data <? e + 4)%Z; [discriminate|].
+    destruct (gslice e (e + 4) data) as [p| |] eqn:Eg; cbn [Outcome.bind]; try discriminate.
+    destruct (read_oids k (e + 4) data) as [ps'| |] eqn:Er; cbn [Outcome.bind]; try discriminate.
+    intros [= <-]. destruct (IH _ _ _ Er) as [Hl Hf]. split; [cbn [length]; lia|].
+    constructor; [|exact Hf]. apply gslice_length in Eg. unfold oid4, len in *. lia.
+Qed.
+
+Lemma concat_oids_length (ps : list bytes) : Forall oid4 ps -> length (concat ps) = (4 * length ps)%nat.
+Proof.
+  induction 1 as [|p ps Hp _ IH]; [reflexivity|].
+  cbn [concat length]. rewrite app_length, IH. unfold oid4 in Hp. lia.
+Qed.
+
+(** the OID loop over an explicit concatenation *)
+Lemma read_oids_app (ps : list bytes) : forall (pre rest : bytes), Forall oid4 ps ->
+  read_oids (length ps) (len pre) (pre ++ concat ps ++ rest) = Ok ps.
+Proof.
+  induction ps as [|p ps IH]; intros pre rest Hf; cbn [length read_oids]; [reflexivity|].
+  inversion Hf as [|p' ps' Hp Hf']; subst p' ps'. unfold oid4 in Hp.
+  cbn [concat]. rewrite <- !app_assoc.
+  assert (Hlen : (len pre + 4 <= len (pre ++ p ++ concat ps ++ rest))%Z).
+  { rewrite !len_app. pose proof (len_nonneg (concat ps)). pose proof (len_nonneg rest). unfold len in *. lia. }
+  destruct (Z.ltb_spec (len (pre ++ p ++ concat ps ++ rest)) (len pre + 4)) as [Hl|_]; [lia|].
+  rewrite (gslice_app_mid pre p (concat ps ++ rest)) by (unfold len; lia). cbn [Outcome.bind].
+  replace (pre ++ p ++ concat ps ++ rest) with ((pre ++ p) ++ concat ps ++ rest) by (rewrite <- app_assoc; reflexivity).
+  replace (len pre + 4)%Z with (len (pre ++ p)) by (rewrite len_app; unfold len; lia).
+  rewrite IH by exact Hf'. reflexivity.
+Qed.
+
+(** what NewParsePacket returns when it accepts: a NUL-terminated name without inner NUL, a 2-byte count,
+    4-byte OIDs, and either no OID at all (nothing follows the count) or as many as the count says *)
+Lemma new_parse_packet_shape (data : bytes) (pp : parse) : new_parse_packet data = Ok pp ->
+  (exists a : bytes, pp_name pp = a ++ [x00] /\ ~ In x00 a) /\
+  length (pp_num pp) = 2%nat /\
+  Forall oid4 (pp_params pp) /\
+  (pp_params pp = [] \/ length (pp_params pp) = Z.to_nat (int_of_u16 (be_dec (pp_num pp)))).
+Proof.
+  unfold new_parse_packet. cbv zeta.
+  destruct (index_of [x00] data) as [s0|] eqn:E0; [|unfold index_nul; rewrite E0; discriminate].
+  destruct (index_of_nul_spec data s0 E0) as (a & r & Hd & Hl & Hn).
+  assert (Hi : index_nul data = Z.of_nat (length a)) by (unfold index_nul; rewrite E0, Hl; reflexivity).
+  rewrite !Hi.
+  destruct (Z.eqb_spec (Z.of_nat (length a)) (-1)) as [Hx|_]; [lia|].
+  assert (Hname : gslice_to (Z.of_nat (length a) + 1) data = Ok (a ++ [x00])).
+  { subst data. replace (a ++ x00 :: r) with ((a ++ [x00]) ++ r) by (rewrite <- app_assoc; reflexivity).
+    apply gslice_to_app. unfold len. rewrite app_length. cbn [length]. lia. }
+  rewrite Hname. cbn [Outcome.bind].
+  destruct (gslice_from (Z.of_nat (length a) + 1) data) as [tail| |]; cbn [Outcome.bind]; try discriminate.
+  destruct (index_nul tail =? -1)%Z; [discriminate|].
+  set (e := (index_nul tail + (Z.of_nat (length a) + 1 + 1))%Z).
+  destruct (gslice (Z.of_nat (length a) + 1) e data) as [query| |]; cbn [Outcome.bind]; try discriminate.
+  destruct (len data <? e + 2)%Z; [discriminate|].
+  destruct (gslice e (e + 2) data) as [num| |] eqn:En; cbn [Outcome.bind]; try discriminate.
+  assert (Hnum : length num = 2%nat) by (apply gslice_length in En; unfold len in En; lia).
+  destruct (e + 2 <? len data)%Z.
+  - rewrite be_u16_2 by exact Hnum. cbn [Outcome.bind].
+    destruct (read_oids (Z.to_nat (int_of_u16 (be_dec num))) (e + 2) data) as [ps| |] eqn:Er; cbn [Outcome.bind]; try discriminate.
+    intros [= <-]. cbn [pp_name pp_num pp_params].
+    destruct (read_oids_shape _ _ _ _ Er) as [Hlen Hf].
+    split; [exists a; split; [reflexivity|exact Hn]|]. split; [exact Hnum|]. split; [exact Hf|]. right. exact Hlen.
+  - intros [= <-]. cbn [pp_name pp_num pp_params].
+    split; [exists a; split; [reflexivity|exact Hn]|]. split; [exact Hnum|]. split; [constructor|]. left. reflexivity.
+Qed.
+
+(** NewParsePacket on a message built from its fields *)
+Lemma new_parse_packet_build (a q num : bytes) (ps : list bytes) :
+  ~ In x00 a -> ~ In x00 q -> length num = 2%nat -> Forall oid4 ps ->
+  (ps = [] \/ length ps = Z.to_nat (int_of_u16 (be_dec num))) ->
+  new_parse_packet ((a ++ [x00]) ++ (q ++ [x00]) ++ num ++ concat ps)
+  = Ok (mk_parse (a ++ [x00]) (q ++ [x00]) num ps).
+Proof.
+  intros Ha Hq Hnum Hf Hcount.
+  set (data := (a ++ [x00]) ++ (q ++ [x00]) ++ num ++ concat ps).
+  assert (Hd1 : data = a ++ x00 :: ((q ++ [x00]) ++ num ++ concat ps)) by (unfold data; rewrite <- app_assoc; reflexivity).
+  assert (Hi : index_nul data = len a) by (unfold index_nul; rewrite Hd1, index_of_nul_app by exact Ha; reflexivity).
+  set (tail := (q ++ [x00]) ++ num ++ concat ps).
+  assert (Ht1 : tail = q ++ x00 :: (num ++ concat ps)) by (unfold tail; rewrite <- app_assoc; reflexivity).
+  assert (Hj : index_nul tail = len q) by (unfold index_nul; rewrite Ht1, index_of_nul_app by exact Hq; reflexivity).
+  assert (Hla : len (a ++ [x00]) = (len a + 1)%Z) by (rewrite len_app; reflexivity).
+  assert (Hlq : len (q ++ [x00]) = (len q + 1)%Z) by (rewrite len_app; reflexivity).
+  assert (Hln : len num = 2%Z) by (unfold len; lia).
+  pose proof (len_nonneg a) as Hna. pose proof (len_nonneg q) as Hnq.
+  unfold new_parse_packet. cbv zeta. rewrite !Hi.
+  destruct (Z.eqb_spec (len a) (-1)) as [Hx|_]; [lia|].
+  unfold data at 1. rewrite gslice_to_app by (symmetry; exact Hla). cbn [Outcome.bind].
+  unfold data at 1. rewrite gslice_from_app by (symmetry; exact Hla). cbn [Outcome.bind].
+  fold tail. rewrite !Hj.
+  destruct (Z.eqb_spec (len q) (-1)) as [Hx|_]; [lia|].
+  unfold data at 1.
+  rewrite (gslice_app_mid (a ++ [x00]) (q ++ [x00]) (num ++ concat ps)) by lia. cbn [Outcome.bind].
+  assert (Hld : len data = (len a + 1 + (len q + 1) + 2 + len (concat ps))%Z).
+  { unfold data. rewrite !len_app. fold (len num). unfold len at 2 4. cbn [length]. lia. }
+  pose proof (len_nonneg (concat ps)) as Hnc.
+  destruct (Z.ltb_spec (len data) (len q + (len a + 1 + 1) + 2)) as [Hl|_]; [lia|].
+  assert (Hd2 : data = ((a ++ [x00]) ++ (q ++ [x00])) ++ num ++ concat ps) by (unfold data; rewrite <- !app_assoc; reflexivity).
+  assert (Hlp : len ((a ++ [x00]) ++ (q ++ [x00])) = (len q + (len a + 1 + 1))%Z) by (rewrite len_app; lia).
+  rewrite Hd2 at 1.
+  rewrite (gslice_app_mid ((a ++ [x00]) ++ (q ++ [x00])) num (concat ps)) by lia. cbn [Outcome.bind].
+  destruct ps as [|p ps].
+  - cbn [concat] in Hld. change (len []) with 0%Z in Hld.
+    destruct (Z.ltb_spec (len q + (len a + 1 + 1) + 2) (len data)) as [Hl|_]; [lia|]. reflexivity.
+  - assert (Hc : length (concat (p :: ps)) = (4 * length (p :: ps))%nat) by (apply concat_oids_length, Hf).
+    cbn [length] in Hc.
+    destruct (Z.ltb_spec (len q + (len a + 1 + 1) + 2) (len data)) as [_|Hl]; [|unfold len in *; lia].
+    rewrite be_u16_2 by exact Hnum. cbn [Outcome.bind].
+    destruct Hcount as [Hc0|Hc0]; [discriminate|]. rewrite <- Hc0.
+    assert (Hd3 : data = (((a ++ [x00]) ++ (q ++ [x00])) ++ num) ++ concat (p :: ps) ++ [])
+      by (unfold data; rewrite app_nil_r, <- !app_assoc; reflexivity).
+    replace (len q + (len a + 1 + 1) + 2)%Z with (len (((a ++ [x00]) ++ (q ++ [x00])) ++ num))
+      by (rewrite len_app; lia).
+    rewrite Hd3. rewrite read_oids_app by exact Hf. reflexivity.
+Qed.
+
+Theorem pg_parse_replace_query_wf : forall (p : packet) (pp : parse) (q : bytes),
+  new_parse_packet (p_desc p) = Ok pp -> ~ In x00 q ->
+  exists p' : packet, replace_parse_query p q = Ok p' /\
+    p_type p' = p_type p /\
+    p_lenbuf p' = packet_length_buf (N.of_nat (length (p_desc p'))) /\
+    p_desc p' = pp_name pp ++ (q ++ [x00]) ++ pp_num pp ++ concat (pp_params pp) /\
+    new_parse_packet (p_desc p') = Ok (mk_parse (pp_name pp) (q ++ [x00]) (pp_num pp) (pp_params pp)).
+Proof.
+  intros p pp q H Hq.
+  destruct (new_parse_packet_shape _ _ H) as ((a & Hname & Ha) & Hnum & Hf & Hcount).
+  unfold replace_parse_query. rewrite H. eexists. split; [reflexivity|].
+  cbn [p_type p_lenbuf p_desc]. unfold marshal_parse. cbn [pp_name pp_query pp_num pp_params].
+  split; [reflexivity|]. split; [reflexivity|]. split; [reflexivity|].
+  rewrite Hname. apply new_parse_packet_build; assumption.
+Qed.
+
+Example pg_parse_replace_query_wf_nonvacuous :
+  let p := mk_packet PG_PARSE_TYPE (hb 0x10000001b) (hb 0x173310053454c4543542024310000020000001700000011) in
+  exists pp, new_parse_packet (p_desc p) = Ok pp /\ pp_params pp <> [] /\
+    replace_parse_query p (hb 0x173656c656374202431202d2d206c6f6e676572)
+    = Ok (mk_packet PG_PARSE_TYPE (hb 0x100000025) (hb 0x173310073656c656374202431202d2d206c6f6e6765720000020000001700000011)).
+Proof. eexists. split; [vm_compute; reflexivity|]. split; [discriminate|vm_compute; reflexivity]. Qed.
